@@ -125,8 +125,12 @@ def o_objname_dir(s: str) -> bool:
     obj = CC.output_file(name, None)
     if not obj.path.suffix.endswith('.o'):
         return R(False)
-    stem = _decode(_mkpath(obj.path.suffix[:-2]), D, leaf_literal=True)
-    return R(obj.path.root == Root.builddir and stem == posixpath.splitext(s)[0])
+    # a leaf `PAR` is either the stem of a source `PAR.c` or the rewritten `..` of a "source" that
+    # is an ancestor directory of D (which cannot be a file): both readings are inverses
+    want = posixpath.splitext(s)[0]
+    o = _mkpath(obj.path.suffix[:-2])
+    return R(obj.path.root == Root.builddir and
+             (_decode(o, D) == want or _decode(o, D, leaf_literal=True) == want))
 
 
 def u_user_path(s: str) -> bool:
